@@ -111,8 +111,24 @@ pub fn profile_for(id: &str, rng: &mut Rng) -> Profile {
             p.constraints = rng.chance(40);
         }
         "C12" => {
-            p.w_flush = *rng.pick(&[0, 4]);
+            p.w_flush = 0;
             p.max_events = rng.range(20, 50) as u32;
+            // many uniform rows of ~0.5 KiB in two tables: the data outgrows a 32-56 page cache while
+            // every cell of a tree has the same size (open findings D31/D32 exclude mixed sizes and overflow)
+            p.text_cols = true;
+            p.pad_text = 450;
+            p.updates = false; // an UPDATE keeps the old version inside the cell: sizes stop being uniform (D31)
+            p.max_tables = 2;
+            p.w_ddl = 3;
+            p.max_inserts_per_table = 100;
+            p.guards.retain(|g| g != "more_than_18_inserts_per_table");
+            p.guards.push("more_than_100_inserts_per_table".into());
+            p.min_events = 90;
+            p.max_events = rng.range(100, 170) as u32;
+            p.w_auto = 60;
+            p.w_session = 25;
+            p.max_sessions = 2;
+            p.w_failing = 2;
         }
         "C13" => {
             p.guards.push("vacuum_after_rolled_back_delete".into()); // D14
